@@ -6,6 +6,7 @@ package webrtc
 
 import (
 	"fmt"
+	"github.com/pion/rtp"
 	"strconv"
 	"strings"
 	"time"
@@ -651,6 +652,19 @@ func (c *c30Child) casePackets(k int) { //nolint:cyclop,gocognit
 			_, err = rtcpW.Write(p.raw)
 		} else {
 			_, err = rtpW.Write(p.raw)
+			if err != nil && len(p.raw) <= 96 {
+				// Write re-parses the whole packet and refuses what pion/rtp calls malformed (e.g. a padding count that
+				// lies about the packet). A remote peer is not bound by that: send the same bytes as header + opaque
+				// payload, which the SRTP stream encrypts without looking at the padding.
+				h := &rtp.Header{}
+				if n, hErr := h.Unmarshal(p.raw); hErr == nil && n <= len(p.raw) {
+					h.PaddingSize = 0
+					if _, err2 := rtpW.WriteRTP(h, p.raw[n:]); err2 == nil {
+						err = nil
+						c.Count("packets_sent_as_header_plus_opaque_payload", 1)
+					}
+				}
+			}
 		}
 		c.Seen("packet_kind", strings.SplitN(p.Kind, "+", 2)[0])
 		if err == nil {
